@@ -42,5 +42,5 @@ DELIVERABLES, all inside {wt}/_seed/ (create the directory):
   3. notes.md     — which property it breaks and why, what exactly is needed for it to manifest, and what you ran
                     (test suite result with the change; demo result with and without the change).
 Verify everything yourself: with the change applied the 42 existing tests pass and demo fails; with the change
-reverted (git stash / git checkout) demo passes. Leave the worktree with the change APPLIED (uncommitted) at the end.
+reverted demo passes. To revert and restore use `git diff > /tmp/<your-id>.patch; git apply -R ...; git apply ...` - do NOT use `git stash` (the stash is shared with other worktrees of the same repository). Leave the worktree with the change APPLIED (uncommitted) at the end.
 Do not commit. Keep the change small (a few lines). Finish with a short summary of the change.""")
